@@ -54,7 +54,7 @@ def run(ck: common.Check):
     # ------------------------------------------------------------------ 2+3. workers (implementation side)
     out = common.scratch_dir("c12_run")
     nw = ck.n(8, 14)
-    per = {"nsrc": ck.n(26, 420), "ninline": ck.n(10, 160), "nir": ck.n(40, 900), "nunit": ck.n(300, 6000),
+    per = {"nsrc": ck.n(22, 300), "ninline": ck.n(8, 110), "nir": ck.n(30, 600), "nunit": ck.n(260, 5000),
            "nmal": ck.n(3, 12), "cap": ck.n(1200, 4000)}
     procs = []
     t0 = time.time()
@@ -80,7 +80,7 @@ def run(ck: common.Check):
     # ------------------------------------------------------------------ model side + comparison
     t0 = time.time()
     dist = {}
-    bf_vals = bf_entries = 0
+    bf_vals = bf_entries = nviol = 0
     for w in range(nw):
         jf, cf = out / ("jobs_%d.sexp" % w), out / ("cases_%d.jsonl" % w)
         if not (jf.exists() and cf.exists()):
@@ -126,12 +126,15 @@ def run(ck: common.Check):
             bf_entries += bf.get("entries", 0)
             if r.get("violation"):
                 v = r["violation"]
-                ck.violation(v["key"], v["replay"], v["what"])
+                nviol += 1
+                if len(ck.violations) < 12:  # every failing input is counted, the first dozen distinct ones are replayed
+                    ck.violation(v["key"], v["replay"], v["what"])
     ck.log("model side + diff: %.1fs" % (time.time() - t0))
     for st, d in sorted(ck.streams.items()):
         ck.log("stream %-18s cases %5d agree %5d diverge %3d  %s" % (st, d["cases"], d["agree"], d["diverge"],
                                                                      dict(sorted(d["distribution"].items())[:6])))
     ck.cov["search"] = {"oracle": "brute-force integer arithmetic (c12_oracle.py)", "valuations": bf_vals,
+                        "failing_inputs": nviol,
                         "trace_entries_compared": bf_entries,
                         "feature_counts": {"%s/%s" % k: v for k, v in sorted(dist.items())}}
     ck.log("search: %d valuations, %d trace entries compared" % (bf_vals, bf_entries))
@@ -146,7 +149,9 @@ def run(ck: common.Check):
         "expression under every valuation admitted by the range environment; DoSimplify.map_e preserves it under every "
         "valuation satisfying the recorded facts (refuted in general: printed-name comparison in is_quotient_remainder; "
         "proved when distinct variables have distinct names); removed branches have a constant-false condition, removed "
-        "loops have hi = lo; the whole-procedure traversal preserves the trace of index values.  Correspondence: "
+        "loops have hi = lo; the whole-procedure traversal preserves the trace of index values.  Cases: a case is "
+        "counted non-trivial when the real code changed its input (rewrote an expression / removed a statement; for "
+        "str/_fact_key comparisons: when the two expressions are identified), distinct by (input, output).  Correspondence: "
         "model output == real output (structural, incl. node types and srcinfo identities) on generated procedures "
         "(source text through the real front end, inlined callees, direct LoopIR with colliding names) and on unit "
         "calls.  Search: exhaustive evaluation of before/after traces over the argument box.")
